@@ -222,7 +222,12 @@ func Run(o Options, cases <-chan []byte) error {
 					batch = batch[got+1:]
 					cc, err := start(&o)
 					if err == nil {
-						g2, r2 := runBatch(cc, &o, [][]byte{suspect})
+						// alone, with a generous limit: a time-out is a verdict only if the case also hangs by itself
+						oc := o
+						if oc.CaseTimeout < 120*time.Second {
+							oc.CaseTimeout = 120 * time.Second
+						}
+						g2, r2 := runBatch(cc, &oc, [][]byte{suspect})
 						if r2 != "" && g2 == 0 {
 							o.OnCrash(Crash{Case: suspect, Stderr: cc.stderr.String(), Reason: r2})
 						} else if r2 == "" {
